@@ -1,26 +1,32 @@
 #!/bin/sh
-# usage: tools/seed_confirm.sh <worktree> <n> <PROP> [<check ids>...]
-# Confirms a seeded change produced in <worktree>/out (patch<n>.diff, demo<n>.py, meta<n>.json): applies it in the
-# worktree, runs the pinned test suite, runs the demo with and without it; if all as claimed stores it under
-# /verif/seeded/<PROP>-<n>/ and runs the listed quick checks against the patched worktree (KV_REPO), never touching /repo.
-WT="$1"; N="$2"; PROP="$3"; shift 3
+# usage: tools/seed_confirm.sh <srcdir> <n> <PROP> [<check ids>...]
+# Confirms a seeded change (<srcdir>/patch<n>.diff, demo<n>.py, meta<n>.json; or <srcdir>/patch.diff, demo.py when n is
+# "-"): in a scratch worktree of /repo's CURRENT HEAD (outside /repo and /verif) applies it, runs the pinned test suite,
+# runs the demo with and without it, runs the listed quick checks against the patched worktree (KV_REPO; /repo itself is
+# never touched), stores everything under /verif/seeded/<PROP>-<n>/ and removes the worktree.
+SRC="$1"; N="$2"; PROP="$3"; shift 3
 HERE="$(cd "$(dirname "$0")/.." && pwd)"
-DST="$HERE/seeded/$PROP-$N"; mkdir -p "$DST"
+if [ "$N" = "-" ]; then P="$SRC/patch.diff"; D="$SRC/demo.py"; M="$SRC/meta.agent.json"; DST="$SRC"
+else P="$SRC/patch$N.diff"; D="$SRC/demo$N.py"; M="$SRC/meta$N.json"; DST="$HERE/seeded/$PROP-$N"; mkdir -p "$DST"
+  cp "$P" "$DST/patch.diff"; cp "$D" "$DST/demo.py"; cp "$M" "$DST/meta.agent.json"; fi
+P="$DST/patch.diff"; D="$DST/demo.py"
 LOG="$DST/confirm.log"; : > "$LOG"
+WT="$(mktemp -d /var/tmp/kvwt.XXXXXX)"; rmdir "$WT"
+git -C /repo worktree add -q --detach "$WT" HEAD || exit 2
+trap 'git -C /repo worktree remove --force "$WT" 2>/dev/null; rm -rf "$WT" "$OUTD"' EXIT INT TERM
 cd "$WT" || exit 2
-git checkout -q -- . ; git apply "out/patch$N.diff" || { echo "patch does not apply" | tee -a "$LOG"; exit 2; }
-/venv/bin/python -m pytest -q -p no:cacheprovider --timeout=900 -x tests > "$DST/tests.log" 2>&1; T=$?
-tail -1 "$DST/tests.log" >> "$LOG"
-/venv/bin/python "out/demo$N.py" > "$DST/demo_with.log" 2>&1; DW=$?
-echo "tests_exit=$T demo_with_change_exit=$DW" >> "$LOG"
+echo "repo_head=$(git rev-parse --short HEAD)" >> "$LOG"
+mkdir -p out; cp "$D" out/demo.py
+/venv/bin/python out/demo.py > "$DST/demo_without.log" 2>&1; DO=$?
+git apply "$P" || { echo "patch does not apply to current HEAD" | tee -a "$LOG"; exit 2; }
+if [ -z "$SKIP_TESTS" ]; then
+/venv/bin/python -m pytest -q -p no:cacheprovider --timeout=900 tests > "$DST/tests.log" 2>&1; T=$?
+tail -1 "$DST/tests.log" >> "$LOG"; else T=skipped; fi
+/venv/bin/python out/demo.py > "$DST/demo_with.log" 2>&1; DW=$?
+echo "tests_exit=$T demo_with_change_exit=$DW demo_without_change_exit=$DO" >> "$LOG"
 OUTD="$(mktemp -d /var/tmp/kvseed.XXXXXX)"
 for id in "$@"; do
   (cd "$HERE" && KV_REPO="$WT" KV_OUT="$OUTD" ./check "$id" --tier quick > "$DST/check-$id.log" 2>&1); C=$?
   echo "check $id exit=$C $(grep -E '^(violation:|HARNESS)' "$DST/check-$id.log" | head -2 | cut -c1-300)" >> "$LOG"
 done
-rm -rf "$OUTD"
-git checkout -q -- .
-/venv/bin/python "out/demo$N.py" > "$DST/demo_without.log" 2>&1; DO=$?
-echo "demo_without_change_exit=$DO" >> "$LOG"
-cp "out/patch$N.diff" "$DST/patch.diff"; cp "out/demo$N.py" "$DST/demo.py"; cp "out/meta$N.json" "$DST/meta.agent.json"
 cat "$LOG"
